@@ -539,6 +539,86 @@ def shrink_candidates(cfg, violation):
     return out
 
 
+def post_batch(tier, base_seed, results):
+    """Thorough tier: (a) re-execute a sample of batches in a fresh interpreter under another PYTHONHASHSEED -
+    event logs (which hash every output) must be identical; (b) real-process fidelity probe: the three
+    behaviours the multiprocessing stub assumes are confirmed against real `multiprocessing`."""
+    if tier != "thorough":
+        return {"evidence": {"hashseed_reexecution": "thorough tier only", "real_process_fidelity_probe": "thorough tier only"}}
+    import subprocess
+    import sys
+    from .core import VERIF_DIR, RunContext, Tape, EventLog, Counters
+    out = {"evidence": {}, "violations": []}
+    # (a) hash seed
+    n = min(24, len(results))
+    env = dict(os.environ, VERIF_HASHSEED="4242", VERIF_SEED=str(base_seed), VERIF_TIER=tier)
+    env.pop("PYTHONHASHSEED", None)
+    p = subprocess.run([os.path.join(VERIF_DIR, "check"), ID, "--tier", tier, "--runs", str(n), "--print-shas", "--no-evidence"],
+                       capture_output=True, text=True, env=env, timeout=3 * 3600)
+    other = {}
+    for line in p.stdout.splitlines():
+        if line.startswith("SHA "):
+            _, i, sha = line.split()
+            other[int(i)] = sha
+    mine = {r["index"]: r["sha"] for r in results if r["index"] < n}
+    if len(other) != n:
+        raise HarnessError("hash-seed re-execution produced %d of %d hashes: %s" % (len(other), n, p.stdout[-800:]))
+    diff = sorted(i for i in other if other[i] != mine.get(i))
+    out["evidence"]["hashseed_reexecution"] = {"batches": n, "PYTHONHASHSEED": [0, 4242], "mismatches": len(diff)}
+    if diff:
+        out["violations"].append({"class": "hashseed_dependence", "message": "batches %r give different outputs / event logs under PYTHONHASHSEED=4242" % diff[:8],
+                                  "detail": {"indices": diff}, "rerun": "VERIF_HASHSEED=4242 ./check C08 --tier thorough --runs %d --print-shas" % n})
+    # (b) real processes
+    out["evidence"]["real_process_fidelity_probe"] = fidelity_probe()
+    bad = [k for k, v in out["evidence"]["real_process_fidelity_probe"].items() if isinstance(v, dict) and v.get("ok") is False]
+    if bad:
+        raise HarnessError("real multiprocessing contradicts an assumption of the stub: %r" % {k: out["evidence"]["real_process_fidelity_probe"][k] for k in bad})
+    return out
+
+
+def fidelity_probe():
+    """Real subprocesses, real multiprocessing, schedule-independent oracles (cannot flake)."""
+    import subprocess
+    import sys
+    from .core import RunContext, Tape, EventLog, Counters
+    import random
+    m = bootstrap()
+    ctx = RunContext({"fail": None}, Tape(rng=random.Random(1)), EventLog(), Counters(), set())
+    b = Batch(ctx)
+    res = {}
+    try:
+        ds = datasets.generate(os.path.join(b.tmp, "ds"), 424242, n_samples=3, n_loci=6, multi_sample_bam=False)
+        ds["ploidy_arg"] = ds["ploidy_file"]
+
+        def real(cores, bams):
+            argv = ["mchap", "assemble", "--bam"] + bams + ["--ploidy", ds["ploidy_file"], "--targets", ds["bed"], "--variants", ds["variants"],
+                                                              "--reference", ds["fasta"], "--mcmc-steps", "60", "--mcmc-burn", "20", "--mcmc-seed", "7", "--cores", str(cores)]
+            code = "import sys; sys.path.insert(0, %r); sys.argv = %r; from mchap.application.cli import main; main()" % (REPO, argv)
+            p = subprocess.run([sys.executable, "-W", "ignore", "-c", code], capture_output=True, text=True, timeout=1800,
+                               env=dict(os.environ, NUMBA_DISABLE_JIT="0"))
+            recs = [l for l in p.stdout.split("\n") if l and not l.startswith("#")]
+            return p.returncode, recs, p.stderr[-300:]
+
+        rc1, r1, _ = real(1, ds["bam_files"])
+        rc3, r3, e3 = real(3, ds["bam_files"])
+        res["no_fault_multiset_equals_single_core"] = {"ok": rc1 == 0 and rc3 == 0 and sorted(r1) == sorted(r3) and len(r1) == len(ds["loci"]),
+                                                        "records": len(r3), "exit": [rc1, rc3]}
+        # the simulated run of the same command gives the same records
+        sim = b.run("assemble", ["mchap", "assemble", "--bam"] + ds["bam_files"] + ["--ploidy", ds["ploidy_file"], "--targets", ds["bed"], "--variants", ds["variants"],
+                                 "--reference", ds["fasta"], "--mcmc-steps", "60", "--mcmc-burn", "20", "--mcmc-seed", "7", "--cores", "3"], DAY0)
+        res["simulated_output_equals_real_output"] = {"ok": sim["error"] is None and sorted(sim["records"]) == sorted(r3)}
+        # a failing locus in a worker surfaces from job.get(): real run exits non-zero, failing locus absent
+        k = [i for i, sn in enumerate(ds["locus_snvs"]) if sn][len([1 for sn in ds["locus_snvs"] if sn]) // 2]
+        d2 = real_bad_dataset(b, ds, k)
+        rcf, rf, ef = real(3, d2["bam_files"])
+        name = ds["loci"][k][3]
+        res["task_exception_surfaces_from_job_get"] = {"ok": rcf != 0 and all(l.split("\t")[2] != name for l in rf) and len(set(rf)) == len(rf),
+                                                        "exit": rcf, "records_written": len(rf), "of": len(ds["loci"])}
+    finally:
+        b.close()
+    return res
+
+
 def evidence(tier, results, counters):
     days = 0
     return {
